@@ -1928,6 +1928,17 @@ class Array(DaskMethodsMixin):
         ):
             key = (key,)
 
+        if (
+            isinstance(key, tuple)
+            and len(key) == 1
+            and isinstance(key[0], Array)
+            and key[0].dtype == bool
+            and key[0].ndim == self.ndim
+            and self.ndim > 1
+        ):
+            # x[(mask,)] means the same as x[mask]
+            key = key[0]
+
         ## Use the "where" method for cases when key is an Array of bools
         if isinstance(key, Array):
             from dask.array.routines import where
